@@ -453,5 +453,126 @@ func runC15(cfg Config) {
 	if len(ents) != 3 {
 		monitor(fmt.Sprintf("unexpected entries next to the served stores: %d", len(ents)), "disk", "")
 	}
+	c15CLI(cfg, rep, rng)
 	rep.Write(cfg.Out)
+}
+
+// c15CLI: the real `desync chunk-server` / `desync index-server`, configured with an authorization value through the
+// flag or through the environment, writable or not: requests without exactly that value get no data and change
+// nothing; a server not started writable changes nothing at all
+func c15CLI(cfg Config, rep *Report, rng *rand.Rand) {
+	bin := desyncBin()
+	if bin == "" {
+		rep.Notes = append(rep.Notes, "desync binary not built: command-line server runs skipped")
+		return
+	}
+	dir := filepath.Join(cfg.Work, "cli15")
+	defer os.RemoveAll(dir)
+	secret := "Bearer s3cr3t-Value"
+	snapshot := func(root string) string {
+		var out []string
+		filepath.Walk(root, func(p string, info os.FileInfo, err error) error {
+			if err == nil && !info.IsDir() {
+				b, _ := os.ReadFile(p)
+				rel, _ := filepath.Rel(root, p)
+				out = append(out, rel+":"+hx(b))
+			}
+			return nil
+		})
+		return strings.Join(out, ",")
+	}
+	for it := 0; it < cfg.N(8, 32); it++ {
+		index := it%2 == 1
+		viaEnv := it%4 < 2
+		writable := it%8 < 4
+		os.RemoveAll(dir)
+		storeDir := filepath.Join(dir, "store")
+		os.MkdirAll(storeDir, 0755)
+		os.WriteFile(filepath.Join(dir, "outside.caibx"), []byte("outside"), 0644)
+		data := randBytes(rng, 200+rng.Intn(2000))
+		chunk := desync.NewChunk(data)
+		id := chunk.ID()
+		other := desync.NewChunk(randBytes(rng, 300))
+		var getPath, putPath string
+		var putBody []byte
+		if index {
+			idx := desync.Index{Index: desync.FormatIndex{FeatureFlags: desync.CaFormatSHA512256, ChunkSizeMin: 16, ChunkSizeAvg: 64, ChunkSizeMax: 4096},
+				Chunks: []desync.IndexChunk{{ID: id, Start: 0, Size: uint64(len(data))}}}
+			var ib bytes.Buffer
+			idx.WriteTo(&ib)
+			os.WriteFile(filepath.Join(storeDir, "present.caibx"), ib.Bytes(), 0644)
+			getPath, putPath, putBody = "/present.caibx", "/new.caibx", ib.Bytes()
+		} else {
+			ls, _ := desync.NewLocalStore(storeDir, desync.StoreOptions{})
+			ls.StoreChunk(chunk)
+			getPath = "/" + id.String()[:4] + "/" + id.String() + ".cacnk"
+			oid := other.ID()
+			putPath = "/" + oid.String()[:4] + "/" + oid.String() + ".cacnk"
+			os.MkdirAll(filepath.Join(dir, "tmpstore"), 0755)
+			tmp, _ := desync.NewLocalStore(filepath.Join(dir, "tmpstore"), desync.StoreOptions{})
+			tmp.StoreChunk(other)
+			putBody, _ = os.ReadFile(filepath.Join(dir, "tmpstore", oid.String()[:4], oid.String()+".cacnk"))
+		}
+		port := freePort()
+		addr := fmt.Sprintf("127.0.0.1:%d", port)
+		cmdName := map[bool]string{false: "chunk-server", true: "index-server"}[index]
+		args := []string{cmdName, "-s", storeDir, "-l", addr}
+		if writable {
+			args = append(args, "-w")
+		}
+		var env []string
+		if viaEnv {
+			env = []string{"DESYNC_HTTP_AUTH=" + secret}
+		} else {
+			args = append(args, "--authorization", secret)
+		}
+		stop, err := startServer(bin, env, addr, args...)
+		caseBase := fmt.Sprintf("cli.server kind=%s auth-via=%s writable=%v", cmdName, map[bool]string{true: "env", false: "flag"}[viaEnv], writable)
+		if err != nil {
+			rep.Notes = append(rep.Notes, "could not start "+cmdName+": "+err.Error())
+			continue
+		}
+		before := snapshot(dir)
+		type hv struct{ name, val string }
+		hdrs := []hv{{"none", ""}, {"wrong", "Bearer other"}, {"case", strings.ToUpper(secret)}, {"suffix", secret + "x"}, {"prefix", "x" + secret}, {"right", secret}}
+		for _, h := range hdrs {
+			hm := map[string]string{}
+			if h.name != "none" {
+				hm["Authorization"] = h.val
+			}
+			for _, meth := range []string{"GET", "HEAD", "PUT"} {
+				p, body := getPath, []byte(nil)
+				if meth == "PUT" {
+					p, body = putPath, putBody
+				}
+				code, rb := httpDo(meth, "http://"+addr+p, hm, body)
+				caseLine := fmt.Sprintf("%s header=%s method=%s", caseBase, h.name, meth)
+				rep.Count(caseLine, true, "cli.server:"+cmdName, fmt.Sprintf("cli-status:%d", code))
+				if h.name != "right" {
+					if code != 401 {
+						rep.Disagree(Disagreement{Kind: "monitor", Case: caseLine, What: fmt.Sprintf("a request without the configured authorization value was answered with status %d, not 401", code)})
+					}
+					if meth == "GET" && len(rb) > 0 && (bytes.Contains(rb, data[:16]) || code == 200) {
+						rep.Disagree(Disagreement{Kind: "monitor", Case: caseLine, What: "a request without the configured authorization value was given the object"})
+					}
+					if after := snapshot(dir); after != before {
+						rep.Disagree(Disagreement{Kind: "monitor", Case: caseLine, What: "a request without the configured authorization value changed the served directory"})
+						before = after
+					}
+				} else {
+					if (meth == "GET" || meth == "HEAD") && code != 200 {
+						rep.Disagree(Disagreement{Kind: "monitor", Case: caseLine, What: fmt.Sprintf("an authorized %s of a present object was answered with status %d", meth, code)})
+					}
+					if meth == "PUT" {
+						after := snapshot(dir)
+						if !writable && after != before {
+							rep.Disagree(Disagreement{Kind: "monitor", Case: caseLine, What: "a server that was not started writable changed its store"})
+						}
+						before = after
+					}
+				}
+			}
+		}
+		stop()
+	}
 }
